@@ -122,12 +122,12 @@ static bool compareObs(const RunResult &A, const RunResult &B, bool compareCount
     for (size_t i = 0; i < A.obs.size(); i++) {
         const Obs &x = A.obs[i], &y = B.obs[i];
         bool same = (x.outcome == y.outcome) && (x.h == y.h);
-        if (same && compareCounts) same = (x.nodes == y.nodes) && (x.edges == y.edges);
+        if (same && compareCounts) same = (x.nodes == y.nodes) && (x.edges == y.edges) && (x.shape == y.shape);
         if (!same) {
             std::ostringstream o;
             o << "observation " << i << " differs: outcome " << x.outcome << "/" << y.outcome
               << " fingerprint " << x.h << "/" << y.h << " nodes " << x.nodes << "/" << y.nodes
-              << " edges " << x.edges << "/" << y.edges;
+              << " edges " << x.edges << "/" << y.edges << " graph shape " << x.shape << "/" << y.shape;
             why = o.str();
             return false;
         }
